@@ -662,6 +662,17 @@ def mon_C15(case):
                 yield finding("C15", st, f"{got} successful reads produced {moved} access records", "C15/record-count")
             if o[0] == "hang":
                 yield finding("C15", st, "a read did not return", "C15/read-blocked")
+        if st.kind == "consumer" and st.out.startswith("consumed") and pre["bufq"] is not None and post["bufq"] is not None:
+            # every record of every buffer the consumer takes off its queue is applied to the sketch (one doorkeeper
+            # `add_if_missing` per record: the tapped answers of this step) — "delivered" must not mean "thrown away"
+            taken = pre["bufq"] - post["bufq"]
+            applied = 0
+            for tok in st.ev.split():
+                if tok.startswith("dkadd="):
+                    applied = len([x for x in tok[6:].split(",") if x != ""])
+            size = case.cfg.get("buf", 0)
+            if taken >= 1 and size and applied != taken * size:
+                yield finding("C15", st, f"the consumer took {taken} buffer(s) of {size} record(s) off its queue but applied {applied} record(s) to the sketch", "C15/delivered-records-not-applied")
 
 
 def mon_C16(case):
